@@ -19,7 +19,31 @@ FRAME = Stage(
     nontrivial=lambda e: e.get("ev") in ("Decode", "DecodeB"),
 )
 
+MSGID = Stage(
+    family="msgid",
+    mc={"quick": [("MC_MsgId.tla", "MC_MsgId.cfg", "pass"), ("MC_MsgId.tla", "MC_MsgId_neg.cfg", "fail")],
+        "thorough": [("MC_MsgId.tla", "MC_MsgId.cfg", "pass"), ("MC_MsgId.tla", "MC_MsgId_neg.cfg", "fail")]},
+    parts={"quick": [("", 4)], "thorough": [("", 8)]},
+    trace=("Trace_MsgId.tla", "Trace_MsgId.cfg"),
+    nontrivial=lambda e: e.get("ev") in ("Combine", "Split", "Str", "Sweep"),
+)
+
 CHECKS = {
+    "C17": dict(
+        stages=[MSGID],
+        technique="TLA+ bit-level definition of the CMPP Msg_Id (MsgId.tla): TLC exhaustive at scaled widths + TLC "
+                  "validation of recorded compose/split/string calls bit for bit, plus interval-classified full sweeps",
+        level_text="TLC checks split/compose identity, layout and string round trip for all 2^16 ids at scaled field widths "
+                   "(shift/mask implementation shape vs. bit-sequence definition; a field one bit short is the negative "
+                   "configuration).  On the real code every field boundary (0,1,max-1,max, each single bit, others at extremes), "
+                   "random tuples and random/patterned 64-bit ids are validated bit-for-bit against the document's layout; "
+                   "full-range sweeps of each field are executed element-wise in Go and TLC checks the interval classes tile "
+                   "the range and are all exact",
+        level_note="in the sweeps only reference-free identities are evaluated (in Go); bit positions are judged by TLC on the "
+                   "fully logged events; 64-bit values travel as 8 octets because TLC integers are 32-bit",
+        rule="tuples/ids at field boundaries + random; distinct = distinct Combine/Split/Str events and sweep intervals",
+        assumptions=["driver's big-endian rendering of uint64 values", "fmt.Sscanf/Sprintf trusted only through the round trip"],
+    ),
     "C04": dict(
         stages=[FRAME],
         technique="TLA+ model of stream framing (Frame.tla): TLC exhaustive over all arrival patterns/interleavings/"
